@@ -8,6 +8,7 @@
 //!   routes ts tp es ep (text routes), ed (to_document tree), vt (Value::try_from), tt (Table::try_from):
 //!     `<r>=ok:<plain tree>` | `<r>=err:<ErrorVariant>`;  plain tree of a text route = the text re-parsed
 //!   `<r>.x=<hex text>` for text routes; typed cases add `<r>.rt=<eq|NE|deerr>[,<eq|NE|deerr>]` and `sval=<tokens joined by ','>`
+use crate::canon::{plain_toml, plain_toml_table};
 use crate::util::*;
 use serde::de::DeserializeOwned;
 use serde::ser::{
@@ -1529,11 +1530,133 @@ fn run_typed<T: Serialize + DeserializeOwned + Gen>(seed: u64, depth: u32) -> St
     out.join(" ")
 }
 
+
+// ---- toml::Value / toml::Table as the serialized type ----------------------------------------
+// `impl Serialize for toml::Value` is code of the crate (three passes over a table's entries), so the value
+// itself — not the recorded serde calls — is the reference here.
+
+const TV_KEYS: &[&str] = &["a", "b", "c", "key", "a b", "", "é", "a.b", "1", "zz", "t", "arr"];
+
+fn g_tv(r: &mut Rng, d: u32) -> toml::Value {
+    let top = if d == 0 { 5 } else { 8 };
+    match r.below(top) {
+        0 => toml::Value::Integer(*r.pick(&[0, 1, -1, 42, i64::MAX, i64::MIN])),
+        1 => toml::Value::String(r.pick(STRS).to_string()),
+        2 => toml::Value::Boolean(r.below(2) == 1),
+        3 => toml::Value::Float(*r.pick(&[0.0, -0.0, 1.5, -2.25, 1e300, f64::INFINITY, f64::NEG_INFINITY, f64::NAN, 0.1])),
+        4 => toml::Value::Datetime(Datetime::gen(r, d)),
+        5 | 6 => {
+            // arrays: scalars only, tables only, or mixed in either order
+            let n = r.below(4) as usize;
+            let style = r.below(4);
+            toml::Value::Array(
+                (0..n)
+                    .map(|i| match style {
+                        0 => g_tv(r, 0),
+                        1 => toml::Value::Table(g_tv_table(r, d - 1)),
+                        2 if i % 2 == 0 => g_tv(r, 0),
+                        2 => toml::Value::Table(g_tv_table(r, d - 1)),
+                        _ => g_tv(r, d - 1),
+                    })
+                    .collect(),
+            )
+        }
+        _ => toml::Value::Table(g_tv_table(r, d - 1)),
+    }
+}
+
+fn g_tv_table(r: &mut Rng, d: u32) -> toml::Table {
+    let n = r.below(4) as usize;
+    let mut t = toml::Table::new();
+    for _ in 0..n {
+        t.insert(r.pick(TV_KEYS).to_string(), g_tv(r, d));
+    }
+    t
+}
+
+#[derive(Serialize, serde::Deserialize, Clone)]
+struct Holder {
+    name: String,
+    meta: toml::Value,
+    list: Vec<toml::Value>,
+    tbl: toml::Table,
+    last: i64,
+}
+
+fn canon_holder(h: &Holder) -> String {
+    format!(
+        "{}|{}|{}|{}|{}",
+        hex(h.name.as_bytes()),
+        plain_toml(&h.meta),
+        h.list.iter().map(plain_toml).collect::<Vec<_>>().join(","),
+        plain_toml_table(&h.tbl),
+        h.last
+    )
+}
+
+fn verdict_c<T>(orig: &str, back: Result<T, ()>, canon: &dyn Fn(&T) -> String) -> &'static str {
+    match back {
+        Ok(b) => {
+            if canon(&b) == orig {
+                "eq"
+            } else {
+                "NE"
+            }
+        }
+        Err(()) => "deerr",
+    }
+}
+
+/// like `run_typed`, but "reads back as the same value" is judged on the values themselves
+fn run_typed_canon<T: Serialize + DeserializeOwned>(v: T, canon: &dyn Fn(&T) -> String) -> String {
+    let orig = canon(&v);
+    let sv = record(&v);
+    let r = routes(&v);
+    let mut out = vec![];
+    route_fields(&r, &mut out);
+    for (name, res) in [("ts", &r.ts), ("tp", &r.tp), ("es", &r.es), ("ep", &r.ep)] {
+        if let Ok(text) = res {
+            let a = verdict_c(&orig, toml::from_str::<T>(text).map_err(|_| ()), canon);
+            let b = verdict_c(&orig, toml_edit::de::from_str::<T>(text).map_err(|_| ()), canon);
+            out.push(format!("{name}.rt={a},{b}"));
+        }
+    }
+    if let Ok(d) = &r.ed {
+        out.push(format!("ed.rt={}", verdict_c(&orig, toml_edit::de::from_document::<T>(d.clone()).map_err(|_| ()), canon)));
+    }
+    if let Ok(x) = &r.vt {
+        out.push(format!("vt.rt={}", verdict_c(&orig, x.clone().try_into::<T>().map_err(|_| ()), canon)));
+    }
+    if let Ok(x) = &r.tt {
+        out.push(format!("tt.rt={}", verdict_c(&orig, x.clone().try_into::<T>().map_err(|_| ()), canon)));
+    }
+    let mut tk = vec![];
+    tokens(&sv, &mut tk);
+    out.push(format!("sval={}", tk.join(",")));
+    out.join(" ")
+}
+
+fn run_tomlvalue(seed: u64, depth: u32, holder: bool) -> String {
+    let mut r = Rng::new(seed);
+    if holder {
+        let h = Holder {
+            name: r.pick(STRS).to_string(),
+            meta: g_tv(&mut r, depth),
+            list: (0..r.below(3)).map(|_| g_tv(&mut r, depth)).collect(),
+            tbl: g_tv_table(&mut r, depth),
+            last: 7,
+        };
+        run_typed_canon(h, &canon_holder)
+    } else {
+        run_typed_canon(toml::Value::Table(g_tv_table(&mut r, depth + 1)), &|v| plain_toml(v))
+    }
+}
+
 #[allow(dead_code)]
 pub const TYPES: &[&str] = &[
     "Prims", "Nested", "MapS", "MapK", "Seqs", "Tuples", "Opts", "Enums", "EnumSeq", "EnumMap", "EnumNest", "Mixed", "OptTbl", "Empties", "Dts",
     "Floats", "Strs", "RootE", "RootMap", "RootMapE", "Deep", "IntEdge", "Wide", "Units", "SeqNone", "BadKeys", "CharKeys", "NtKeys", "RootVec",
-    "RootInt", "RootStr", "RootTuple", "RootOpt", "RootNt", "RootUnit", "RootDt", "RootE2",
+    "RootInt", "RootStr", "RootTuple", "RootOpt", "RootNt", "RootUnit", "RootDt", "RootE2", "TomlValue", "Holder",
 ];
 
 fn typed(name: &str, seed: u64) -> String {
@@ -1576,6 +1699,8 @@ fn typed(name: &str, seed: u64) -> String {
         "RootUnit" => run_typed::<()>(seed, d),
         "RootDt" => run_typed::<Datetime>(seed, d),
         "RootE2" => run_typed::<E>(seed, d),
+        "TomlValue" => run_tomlvalue(seed, d + 1, false),
+        "Holder" => run_tomlvalue(seed, d + 1, true),
         _ => panic!("type"),
     }
 }
